@@ -54,6 +54,13 @@ func (r *c19run) exec(op SOp) {
 			s.Send(1, s.Text(1, 20, 0))
 			s.Exec(SOp{K: "flush"})
 		}
+	case "v1flood":
+		// nothing but key-exchange messages of protocol version 1, which no current client speaks
+		for i := 0; i <= 2+op.I%3; i++ {
+			before := len(w.Q[who])
+			w.Receive(who, []byte([]string{"?OTR:AAEKAAAAwHZlcnNpb24gb25lIGtleSBleGNoYW5nZQ==.", "?OTR:AAEK.", "?OTR:AAEKAAAA"}[(i+op.F)%3]))
+			w.Q[who] = w.Q[who][:before]
+		}
 	case "fragflood":
 		// unauthenticated one-piece fragments with reserved, foreign or unparsable instance tags (version 3 headers)
 		own := w.P[who].C.GetOurInstanceTag()
@@ -68,7 +75,11 @@ func (r *c19run) exec(op SOp) {
 				"?OTR:AAEK.",
 			}
 			before := len(w.Q[who])
-			w.Receive(who, []byte(forms[(i+op.F)%len(forms)]))
+			f := (i + op.F) % len(forms)
+			if op.X > 0 {
+				f = (op.X - 1) % len(forms) // a flood of one kind only: nothing else comes by to flush what it leaves behind
+			}
+			w.Receive(who, []byte(forms[f]))
 			w.Q[who] = w.Q[who][:before]
 		}
 	case "errreq":
@@ -201,7 +212,7 @@ func runC19(sc *CycleScript) *sim.Outcome {
 			switch op.K {
 			case "pp", "burst", "cross", "tlvonly":
 				accepted = true
-			case "forge", "forgealt", "garbage", "rejake", "replayflood", "errreq", "fragflood":
+			case "forge", "forgealt", "garbage", "rejake", "replayflood", "errreq", "fragflood", "v1flood":
 				rejected = true
 			}
 		}
@@ -279,7 +290,7 @@ func init() { reg("C19cycles", runC19); reg("C19patterns", runC19) }
 
 func TestProp_C19_Cycles(t *testing.T) {
 	defer sim.MarkCompleted("C19cycles", false)
-	kinds := []string{"pp", "pp", "pp", "tlvonly", "cross", "cross", "burst", "burst", "forge", "forge", "forgealt", "forgealt", "errreq", "fragflood", "garbage", "rejake", "rekey", "rekey", "smprun", "age", "replayflood"}
+	kinds := []string{"pp", "pp", "pp", "tlvonly", "cross", "cross", "burst", "burst", "forge", "forge", "forgealt", "forgealt", "errreq", "fragflood", "v1flood", "garbage", "rejake", "rekey", "rekey", "smprun", "age", "replayflood"}
 	maxN := 10
 	if sim.Thorough() {
 		maxN = 32
@@ -325,6 +336,8 @@ func TestProp_C19_Patterns(t *testing.T) {
 		{{K: "garbage", W: 0}, {K: "replayflood", W: 0}},
 		{{K: "fragflood", W: 0, I: 2}},
 		{{K: "fragflood", W: 1, I: 1, F: 1}, {K: "garbage", W: 1}},
+		{{K: "v1flood", W: 0, I: 2}},
+		{{K: "v1flood", W: 1, I: 1, F: 1}, {K: "age", W: 0}},
 		{{K: "fragflood", W: 0, I: 2, F: 3}},
 		{{K: "fragflood", W: 1, I: 2, F: 5}},
 		// one side only listens: its only output is the heartbeat after a silence
@@ -345,6 +358,9 @@ func TestProp_C19_Patterns(t *testing.T) {
 		{{K: "errreq", W: 1}, {K: "age", W: 0}, {K: "age", W: 1}, {K: "rekey", W: 1}},
 		{{K: "errreq", W: 0}, {K: "age", W: 0}, {K: "age", W: 1}, {K: "rekey", W: 0}},
 		{{K: "errreq", W: 0}, {K: "errreq", W: 1}, {K: "age", W: 0}, {K: "age", W: 1}, {K: "rekey", W: 0}},
+	}
+	for x := 1; x <= 7; x++ {
+		pats = append(pats, []SOp{{K: "fragflood", W: x & 1, I: 2, X: x}})
 	}
 	idx := 0
 	for _, v := range []int{3, 2} {
